@@ -89,6 +89,9 @@ func runC06(c *mon.Ctx) {
 		second[s] = gen.NewIdentity(kr, s, "ed25519:aux")
 	}
 	unknown := gen.NewIdentity(kr, "unrelated.example", "ed25519:u")
+	if c.Shard == 0 {
+		c06SmuggledAuthoriser(c, ids)
+	}
 	r := c.RandShared("cases")
 	versions := sortedVersions()
 	ts := baseTime.UnixMilli()
@@ -397,3 +400,51 @@ func faultClass(states map[string]signerState, req []string) string {
 }
 
 var _ = spec.ServerName("")
+
+// c06SmuggledAuthoriser: a restricted join names its authorising user twice. If the event is accepted at all, the server
+// of every user so named may be the one the auth rules go by, so each must have signed: a signature of the sender's
+// server alone must not do.
+func c06SmuggledAuthoriser(c *mon.Ctx, ids map[string]*gen.Identity) {
+	r := c.Rand("smuggled")
+	for _, ver := range sortedVersions() {
+		t := ref.Traits(string(ver))
+		if t == nil || !t.Restricted || ver == gmsl.RoomVersionPseudoIDs {
+			continue
+		}
+		impl := gmsl.MustGetRoomVersion(ver)
+		for _, order := range []string{"own-server-first", "own-server-last"} {
+			sSender, sVictim := c06servers[0], c06servers[1]
+			a, b := "@mallory:"+sSender, "@admin:"+sVictim
+			if order == "own-server-last" {
+				a, b = b, a
+			}
+			content := fmt.Sprintf(`{"membership":"join","join_authorised_via_users_server":%q,"join_authorised_via_users_server":%q}`, a, b)
+			ps := protoSpec{Type: "m.room.member", StateKey: strp("@alice:" + sSender), Sender: "@alice:" + sSender, RoomID: "!room:" + sSender, Content: []byte(content),
+				Prev: []string{fakeEventID(r, t)}, Auth: []string{fakeEventID(r, t)}, Depth: 5}
+			if t.Domainless {
+				ps.RoomID = "!" + base64.RawURLEncoding.EncodeToString(r.Bytes(32))
+			}
+			c.Case("verify:smuggled-authoriser:"+string(ver)+":"+order, map[string]any{"version": ver, "content": content}, func() {
+				c.Nontrivial("smuggled|" + string(ver) + "|" + order)
+				c.Count("smuggled_authoriser_cases")
+				ev, err := buildEvent(ver, ps, ids[sSender], baseTime)
+				if err != nil {
+					c.Count("smuggled_authoriser_unbuildable")
+					return
+				}
+				p, err := impl.NewEventFromUntrustedJSON(ev.JSON())
+				if err != nil {
+					c.Count("smuggled_authoriser_refused_at_parse")
+					return
+				}
+				db := newMemKeyDB()
+				for _, s := range c06servers {
+					db.set(s, "ed25519:main", ids[s].Pub, farFuture, 0)
+				}
+				if err := gmsl.VerifyEventSignatures(context.Background(), p, &gmsl.KeyRing{KeyDatabase: db}, userIDForSender); err == nil {
+					c.Failf("verify:required-set:second-authoriser-member-ignored", "v%s: a join naming its authorising user twice (%s) verifies with the signature of %s alone; the auth rules may go by the other member, whose server %s did not sign", ver, content, sSender, sVictim)
+				}
+			})
+		}
+	}
+}
